@@ -412,6 +412,9 @@ Ltac fr_solve := unfold fr, same_ents; cbn; repeat split; try reflexivity; try c
 Lemma last_index_same_ents l l' : same_ents l l' -> last_index l' = last_index l.
 Proof. intros (A & B & _). unfold last_index. rewrite A, B. reflexivity. Qed.
 
+Lemma last_index_eq l l' : unst l' = unst l -> store l' = store l -> last_index l' = last_index l.
+Proof. intros A B. unfold last_index. rewrite A, B. reflexivity. Qed.
+
 Lemma fr_last_index r r' : fr r r' -> last_index (r_log r') = last_index (r_log r).
 Proof. intros (_ & _ & H & _). apply last_index_same_ents; exact H. Qed.
 
@@ -1263,4 +1266,237 @@ Proof.
   fold (conf_of x) in C0. subst l'.
   rewrite A, B, C0, D, E, F, Hmsg, Hc, Hi, Hp, Ht, Hm, Hst, Hap, Hli. rewrite Hl in *.
   repeat split; try reflexivity; try lia. exact Happ.
+Qed.
+
+(* C09: a new leader's pending_conf_index covers its whole log (conservatively) *)
+Theorem become_leader_ConfBound r r' :
+  become_leader r = Ok r' -> LogBounded (r_log r) -> ConfBound r' /\ r_state r' = Leader.
+Proof.
+  intros H Hb. apply become_leader_spec in H.
+  destruct H as (Hs & Hp & _ & _ & _ & _ & _ & _ & Hcb & _).
+  split; [|exact Hs]. unfold ConfBound. rewrite Hp. apply Hcb.
+  intros e He _ _. apply Hb; exact He.
+Qed.
+
+(* --- the proposal path of step_leader --- *)
+
+Lemma ConfBound_filter r ents info i r1 ents' ok :
+  filter_conf_changes r ents info i = (r1, ents', ok) -> ConfBound r -> ConfBound r1.
+Proof.
+  intros H Hcb. pose proof (filter_pending_cases _ _ _ _ _ _ _ H) as Hc.
+  apply filter_frame_fields in H. destruct H as (Hl & _). unfold ConfBound. rewrite Hl.
+  destruct Hc as [-> |[Hp _]]; [exact Hcb|].
+  eapply ConfBoundP_none; [|exact Hcb]. unfold has_pending_conf in Hp. lia.
+Qed.
+
+Theorem step_leader_propose_spec r m r' c :
+  m_type m = MsgPropose -> step_leader r m = Ok (r', c) ->
+  (* dropped: nothing is appended; pending_conf_index may still have been raised by the filter *)
+  (c = E_PROPOSAL_DROPPED /\ r_log r' = r_log r /\ r_state r' = r_state r /\ r_msgs r' = r_msgs r /\
+   (r_pending_conf_index r' = r_pending_conf_index r \/
+    (has_pending_conf r = false /\ last_index (r_log r) + 1 <= r_pending_conf_index r'))) \/
+  (* accepted: the filtered entries are stamped and appended, then broadcast *)
+  (c = E_OK /\ exists r1 ents l' z r2,
+     filter_conf_changes r (m_entries m) (m_ccinfo m) 0 = (r1, ents, true) /\
+     log_append (r_log r) (stamp ents (r_term r) (last_index (r_log r) + 1)) = Ok (l', z) /\
+     same_ctl r1 r2 /\ r_log r2 = l' /\ fr r2 r').
+Proof.
+  intros Ht H. unfold step_leader in H. rewrite Ht in H.
+  change (MsgPropose =? MsgBeat) with false in H.
+  change (MsgPropose =? MsgCheckQuorum) with false in H.
+  change (MsgPropose =? MsgPropose) with true in H. cbn iota in H.
+  destruct (m_entries m) as [|e0 es] eqn:Ee; [discriminate|]. rewrite <- Ee in *.
+  destruct (get_pr r (r_id r)).
+  2:{ inversion H; subst. left. repeat split; auto. }
+  destruct (r_lead_transferee r).
+  { inversion H; subst. left. repeat split; auto. }
+  destruct (filter_conf_changes r (m_entries m) (m_ccinfo m) 0) as [[r1 ents] ok] eqn:F.
+  pose proof (filter_frame_fields _ _ _ _ _ _ _ F) as (Hl & _ & Hs & _ & _ & Htm & Hm).
+  pose proof (filter_pending_cases _ _ _ _ _ _ _ F) as Hpc.
+  assert (Hpc' : r_pending_conf_index r1 = r_pending_conf_index r \/
+                 (has_pending_conf r = false /\ last_index (r_log r) + 1 <= r_pending_conf_index r1)).
+  { destruct Hpc as [A|[A B]]; [left; exact A|right; split; [exact A|lia]]. }
+  destruct ok; cbn [negb] in H.
+  2:{ inversion H; subst. left. repeat split; auto. }
+  inv_bind H. destruct x as [r2 appended].
+  apply append_entry_spec in Hx. destruct Hx as (Hctl & Hmsg & Hlog).
+  destruct appended; cbn [negb] in H.
+  - inv_bind H. inversion H; subst. right. split; [reflexivity|].
+    destruct Hlog as ([l' z] & Hy & Hl2). cbn [fst] in Hl2.
+    exists r1, ents, l', z, r2. rewrite Hl, Htm in Hy.
+    split; [reflexivity|]. split; [exact Hy|]. split; [exact Hctl|]. split; [exact Hl2|].
+    eapply bcast_append_fr; eassumption.
+  - inversion H; subst. left. destruct Hctl as (A & B & _).
+    rewrite Hlog, Hl, A, Hs, Hmsg, Hm, B. repeat split; auto.
+Qed.
+
+(* C09: on an accepted proposal pending_conf_index bounds the membership-change entries
+   just appended (propose_sets_pending), and the leader invariant is preserved *)
+Theorem step_leader_propose_ConfBound r m r' c :
+  m_type m = MsgPropose -> step_leader r m = Ok (r', c) -> ConfBound r -> ConfBound r'.
+Proof.
+  intros Ht H Hcb. apply step_leader_propose_spec in H; [|exact Ht].
+  destruct H as [(_ & Hl & _ & _ & Hp)|(_ & r1 & ents & l' & z & r2 & F & Hy & Hctl & Hl2 & Hfr)].
+  - unfold ConfBound. rewrite Hl. destruct Hp as [-> |[Hp _]]; [exact Hcb|].
+    eapply ConfBoundP_none; [|exact Hcb]. unfold has_pending_conf in Hp. lia.
+  - eapply fr_ConfBound; [exact Hfr|].
+    pose proof (ConfBound_filter _ _ _ _ _ _ _ F Hcb) as Hcb1.
+    pose proof (filter_frame_fields _ _ _ _ _ _ _ F) as (Hl & _).
+    unfold ConfBound in *. destruct Hctl as (_ & -> & _). rewrite Hl2. rewrite Hl in Hcb1.
+    destruct ents as [|e0 es].
+    { (* nothing to append *)
+      Transparent log_append stamp. cbn in Hy. Opaque log_append stamp.
+      inversion Hy; subst. exact Hcb1. }
+    eapply ConfBoundP_append; [exact Hy|discriminate|exact Hcb1|].
+    intros k e Hk Hc. pose proof (filter_conf_bound _ _ _ _ _ _ F k e Hk Hc). lia.
+Qed.
+
+(* ------------------------------------------------------------------ *)
+(* 7. commit_apply: applying moves [applied]; the auto-leave entry is proposed once *)
+
+Definition auto_leave_cond (r : raft) (old_applied app : N) : bool :=
+  auto_leave (conf_of r) && (old_applied <=? r_pending_conf_index r)
+  && (r_pending_conf_index r <=? app) && is_leader r.
+
+Definition auto_leave_entry : entry := mkEntry EntryConfChangeV2 0 0 [] [].
+
+(* the log after the applied_to / applied_to_unchecked step *)
+Definition apply_step (l : raft_log) (app : N) (skip : bool) : Res raft_log :=
+  if negb skip then applied_to l app
+  else if app =? 0 then Panic site_commit_apply_assert
+  else Ok (applied_to_unchecked l app).
+
+Lemma apply_step_spec l app skip l1 :
+  apply_step l app skip = Ok l1 ->
+  unst l1 = unst l /\ store l1 = store l /\ committed l1 = committed l /\
+  ((skip = false /\ app = 0 /\ l1 = l) \/
+   (skip = false /\ app <> 0 /\ applied l <= app <= committed l /\ l1 = set_applied l app) \/
+   (skip = true /\ app <> 0 /\ l1 = set_applied l app)).
+Proof.
+  unfold apply_step, applied_to, applied_to_unchecked. intros H. destruct skip; cbn [negb] in H.
+  - destruct (N.eqb_spec app 0); [discriminate|]. inversion H; subst. repeat split; auto.
+  - destruct (N.eqb_spec app 0). { inversion H; subst. repeat split; auto. }
+    destruct ((committed l <? app) || (app <? applied l)) eqn:E; [discriminate|].
+    inversion H; subst. repeat split; auto. right; left. repeat split; auto; lia.
+Qed.
+
+Theorem commit_apply_internal_spec r app skip r' :
+  commit_apply_internal r app skip = Ok r' ->
+  exists l1, apply_step (r_log r) app skip = Ok l1 /\
+    if auto_leave_cond r (applied (r_log r)) app then
+      exists l2 z,
+        log_append l1 (stamp [auto_leave_entry] (r_term r) (last_index (r_log r) + 1)) = Ok (l2, z) /\
+        r_log r' = l2 /\
+        r_pending_conf_index r' = last_index l2 /\
+        last_index l2 = last_index (r_log r) + 1 /\
+        r_state r' = r_state r /\ conf_of r' = conf_of r /\ r_id r' = r_id r /\
+        r_promotable r' = r_promotable r /\ r_term r' = r_term r /\ r_msgs r' = r_msgs r
+    else r' = r <| r_log := l1 |>.
+Proof.
+  unfold commit_apply_internal. fold (apply_step (r_log r) app skip). intros H.
+  inv_bind H. exists x. split; [exact Hx|].
+  pose proof (apply_step_spec _ _ _ _ Hx) as (Hu & Hs & _).
+  assert (Hli : last_index x = last_index (r_log r)) by (apply last_index_eq; assumption).
+  change (conf_of (r <| r_log := x |>)) with (conf_of r) in H.
+  change (r_pending_conf_index (r <| r_log := x |>)) with (r_pending_conf_index r) in H.
+  change (is_leader (r <| r_log := x |>)) with (is_leader r) in H.
+  fold (auto_leave_cond r (applied (r_log r)) app) in H.
+  destruct (auto_leave_cond r (applied (r_log r)) app); [|inversion H; reflexivity].
+  inv_bind H. destruct x0 as [r1 ok]. destruct ok; cbn [negb] in H; [|discriminate].
+  inversion H; subst. clear H.
+  apply append_entry_spec in Hx0. destruct Hx0 as (Hctl & Hmsg & ([l2 z] & Hy & Hl2)).
+  cbn [fst] in Hl2. change (r_log (r <| r_log := x |>)) with x in Hy.
+  change (r_term (r <| r_log := x |>)) with (r_term r) in Hy.
+  pose proof (log_append_stamp_last _ _ _ _ _ Hy ltac:(discriminate)) as Hlast.
+  cbn [length] in Hlast. rewrite Hli in Hy, Hlast.
+  exists l2, z. fold auto_leave_entry in Hy.
+  destruct Hctl as (A & B & C0 & D & E & F). cbn in A, B, C0, D, E, F, Hmsg.
+  cbn. fold (conf_of r1). rewrite Hl2.
+  repeat split; try assumption; try lia.
+Qed.
+
+Lemma set_applied_same l : set_applied l (applied l) = l.
+Proof. destruct l; reflexivity. Qed.
+
+(* C09: commit_apply preserves the bound; when it proposes the auto-leave entry the new
+   pending_conf_index is exactly that entry's index (autoleave_sets_pending) *)
+Theorem commit_apply_internal_ConfBound r app skip r' :
+  commit_apply_internal r app skip = Ok r' ->
+  (skip = false \/ applied (r_log r) <= app) ->
+  ConfBound r -> ConfBound r'.
+Proof.
+  intros H Hsk Hcb. apply commit_apply_internal_spec in H. destruct H as (l1 & Hl1 & H).
+  pose proof (apply_step_spec _ _ _ _ Hl1) as (Hu & Hs & _ & Hcase).
+  (* the apply step only raises [applied] *)
+  assert (Hcb1 : ConfBoundP l1 (r_pending_conf_index r) /\ applied (r_log r) <= applied l1 /\
+                 (applied l1 = app \/ (app = 0 /\ applied l1 = applied (r_log r)))).
+  { destruct Hcase as [(_ & A & ->)|[(_ & _ & A & ->)|(A & _ & ->)]].
+    - split; [exact Hcb|]. split; [lia|right; auto].
+    - split; [apply ConfBoundP_applied_up; [lia|exact Hcb]|]. cbn. split; [lia|left; reflexivity].
+    - destruct Hsk as [Hsk|Hsk]; [congruence|].
+      split; [apply ConfBoundP_applied_up; [lia|exact Hcb]|]. cbn. split; [lia|left; reflexivity]. }
+  destruct Hcb1 as (Hcb1 & Hup & Happ).
+  destruct (auto_leave_cond r (applied (r_log r)) app) eqn:Ec.
+  - destruct H as (l2 & z & Hy & Hl2 & Hp & Hlast & _).
+    unfold ConfBound. rewrite Hl2, Hp, Hlast.
+    unfold auto_leave_cond in Ec.
+    assert (Hle : r_pending_conf_index r <= applied l1) by lia.
+    assert (Hli : last_index l1 = last_index (r_log r)) by (apply last_index_eq; assumption).
+    rewrite <- Hli in Hy |- *.
+    eapply ConfBoundP_append; [exact Hy|discriminate| |].
+    + eapply ConfBoundP_none; [exact Hle|exact Hcb1].
+    + intros k e Hk _. destruct k as [|[|k]]; cbn in Hk; try discriminate. lia.
+  - subst r'. exact Hcb1.
+Qed.
+
+Lemma auto_leave_cond_pending r a app : auto_leave_cond r a app = true -> r_pending_conf_index r <= app.
+Proof. unfold auto_leave_cond. lia. Qed.
+
+(* C09: the auto-leave entry is appended only by a leader whose configuration has
+   auto_leave set and whose pending index was just passed by applied; afterwards the
+   pending index is the new entry's index, above applied, so a repeated call at the same
+   applied index changes nothing *)
+Theorem auto_leave_once r app r' :
+  commit_apply r app = Ok r' ->
+  auto_leave_cond r (applied (r_log r)) app = true ->
+  committed (r_log r) <= last_index (r_log r) ->
+  r_state r = Leader /\ auto_leave (conf_of r) = true /\
+  applied (r_log r) <= r_pending_conf_index r <= app /\
+  r_pending_conf_index r' = last_index (r_log r) + 1 /\
+  last_index (r_log r') = last_index (r_log r) + 1 /\
+  applied (r_log r') < r_pending_conf_index r' /\
+  auto_leave_cond r' (applied (r_log r')) app = false /\
+  commit_apply r' app = Ok r'.
+Proof.
+  unfold commit_apply. intros H Hc Hcl.
+  pose proof (commit_apply_internal_spec _ _ _ _ H) as (l1 & Hl1 & Hs). rewrite Hc in Hs.
+  destruct Hs as (l2 & z & Hy & Hl2 & Hp & Hlast & Hst & Hcf & _).
+  pose proof (apply_step_spec _ _ _ _ Hl1) as (Hu & Hsto & Hcm & Hcase).
+  assert (Hne : stamp [auto_leave_entry] (r_term r) (last_index (r_log r) + 1) <> []).
+  { Transparent stamp. cbn. Opaque stamp. discriminate. }
+  pose proof (log_append_spec _ _ _ _ Hy Hne) as (_ & Hap2 & Hcm2 & _).
+  assert (Happ : app <= committed (r_log r) /\ applied l1 <= app /\ (app <> 0 -> applied l1 = app)).
+  { destruct Hcase as [(_ & A & ->)|[(_ & A0 & A & ->)|(A & _)]]; [| |discriminate].
+    - unfold auto_leave_cond in Hc. split; [lia|]. split; [lia|congruence].
+    - cbn. split; [lia|]. split; [lia|reflexivity]. }
+  destruct Happ as (Ha1 & Ha2 & Ha3).
+  pose proof Hc as Hc'. unfold auto_leave_cond in Hc'.
+  assert (Hlead : r_state r = Leader).
+  { unfold is_leader in Hc'. destruct (r_state r); cbn in Hc'; try lia. reflexivity. }
+  assert (Hcond2 : auto_leave_cond r' (applied (r_log r')) app = false).
+  { unfold auto_leave_cond. rewrite Hp, Hlast.
+    destruct (last_index (r_log r) + 1 <=? app) eqn:E; [lia|].
+    rewrite andb_false_r. reflexivity. }
+  split; [exact Hlead|]. split; [lia|]. split; [lia|].
+  split; [rewrite Hp, Hlast; reflexivity|]. split; [rewrite Hl2; exact Hlast|].
+  split; [rewrite Hp, Hlast, Hl2, Hap2; lia|]. split; [exact Hcond2|].
+  (* the repeated call *)
+  unfold commit_apply_internal. cbn [negb].
+  assert (Hstep : applied_to (r_log r') app = Ok (r_log r')).
+  { unfold applied_to. destruct (N.eqb_spec app 0); [reflexivity|].
+    rewrite Hl2, Hap2, Hcm2, Hcm, (Ha3 n).
+    destruct ((committed (r_log r) <? app) || (app <? app)) eqn:E; [lia|].
+    rewrite <- (Ha3 n), <- Hap2. rewrite set_applied_same. reflexivity. }
+  rewrite Hstep. cbn [bind]. rewrite set_log_same.
+  fold (auto_leave_cond r' (applied (r_log r')) app). rewrite Hcond2. reflexivity.
 Qed.
